@@ -95,9 +95,9 @@ func runC05(c *Ctx) {
 		// R5
 		// moving on to the next segment file restarts the valid-offset count: lastOffset() is relative to the last file
 		// (it is where the writer continues and where Repair truncates)
-		rec := an.Call("wal.(*decoder).decodeRecord")
-		r.Order("C05-R4", u, rec, []an.M{an.Store("wal.decoder.lastValidOff").Where("= 0", func(u *an.Unit, s *an.Site) bool { return s.RHS != nil && u.C.Term(s.RHS) == "0" })}, an.OrderOpts{Min: 1})
-		r.Order("C05-R4", u, rec, []an.M{an.Store("wal.decoder.brs")}, an.OrderOpts{Min: 1})
+		// (whatever the control structure — recursion or a loop — every path from the advance to a normal exit resets it)
+		zero := an.Store("wal.decoder.lastValidOff").Where("= 0", func(u *an.Unit, s *an.Site) bool { return s.RHS != nil && u.C.Term(s.RHS) == "0" })
+		r.Follow("C05-R4", u, an.Store("wal.decoder.brs"), []an.M{zero}, an.FollowOpts{ErrorExitsExempt: true, Min: 1})
 		r.Guard("C05-R5", u, an.Call("builtin.make"), "recBytes < wal.maxWALEntrySizeLimit - padBytes", an.GuardOpts{Min: 1})
 		r.ArgValues("C05-R5", u, an.Call("builtin.make"), 1, []string{"(padBytes + recBytes)"}, 1)
 	}
